@@ -71,6 +71,8 @@ type Safety struct {
 	confHist     map[string][]*ConfInfo
 	confTimes    map[string][]confAt
 	pendingLease []pendingLease
+	maxTermAll   uint64
+	committedBy  map[uint64]uint64 // index -> upper bound of the term in which it was committed
 	tornEnts     map[string][]EntryInfo
 	grants       map[string]map[string]bool // "candidate/term" -> voters whose granted real vote reached it
 	pendingElect []electRec
@@ -169,7 +171,7 @@ func NewSafety() *Safety {
 		fsmSeq: map[int][]uint64{}, fsmRestored: map[int]bool{},
 		leaderByTerm: map[uint64]string{}, leaderSeq: map[uint64]int{}, rpcLeaderByTerm: map[uint64]string{}, ledFirst: map[string]bool{},
 		votes: map[string]map[uint64]string{}, persisted: map[string][2]any{}, maxTerm: map[string]uint64{}, termAtDel: map[int]uint64{}, lastAtDel: map[int][2]uint64{},
-		sets: map[string][]setRec{}, delSeq: map[int]int{}, replies: map[string][]replyRec{}, confs: map[string]*ConfInfo{}, confHist: map[string][]*ConfInfo{}, confTimes: map[string][]confAt{}, tornEnts: map[string][]EntryInfo{}, grants: map[string]map[string]bool{},
+		sets: map[string][]setRec{}, delSeq: map[int]int{}, replies: map[string][]replyRec{}, confs: map[string]*ConfInfo{}, confHist: map[string][]*ConfInfo{}, confTimes: map[string][]confAt{}, tornEnts: map[string][]EntryInfo{}, committedBy: map[uint64]uint64{}, grants: map[string]map[string]bool{},
 		rvReal: map[string]int{}, rvPre: map[string]int{}, incStatus: map[string]StatusInfo{},
 		openRecv: map[string]*recvFile{}, mixedFiles: map[int]string{}, inflightIS: map[string]map[int]*MsgInfo{},
 		lastStatus: map[string]StatusInfo{}, memberPending: map[int]*memberReq{}, memberAwaitAppend: map[string]int{},
@@ -210,6 +212,9 @@ func (s *Safety) noteTerm(node string, term uint64, seq int, what string) {
 		return
 	}
 	s.maxTerm[node] = term
+	if term > s.maxTermAll {
+		s.maxTermAll = term
+	}
 }
 
 func (s *Safety) noteVote(node string, term uint64, cand string, seq int, what string) {
@@ -442,6 +447,7 @@ func (s *Safety) onStorage(e *Event) {
 			} else {
 				s.committed[j] = ce
 				s.committedSeq[j] = e.Seq
+				s.committedBy[j] = s.maxTermAll
 			}
 		}
 		l.ents = append([]EntryInfo(nil), l.ents[st.Index-l.bi:]...)
@@ -584,6 +590,7 @@ func (s *Safety) onStatus(e *Event) {
 		} else {
 			s.committed[i] = en
 			s.committedSeq[i] = e.Seq
+			s.committedBy[i] = s.maxTermAll
 		}
 	}
 }
@@ -606,6 +613,13 @@ func (s *Safety) leaderStarts(node string, term uint64, seq int) {
 	for _, i := range idx {
 		c := s.committed[i]
 		if i < l.bi {
+			continue
+		}
+		// Leader Completeness speaks about leaders of *higher-numbered terms* than the one the entry was committed
+		// in. A candidate of an older term may still collect its (old) votes after a newer term has committed
+		// something - it leads a dead term and has no say. committedBy is an upper bound of the committing term
+		// (the highest term anybody had reached when the commit was first observed).
+		if term <= s.committedBy[i] {
 			continue
 		}
 		if i == l.bi {
@@ -786,6 +800,7 @@ func (s *Safety) onApply(e *Event) {
 	} else {
 		s.committed[a.Index] = EntryInfo{I: a.Index, T: a.Term, Y: 1, H: a.H}
 		s.committedSeq[a.Index] = e.Seq
+		s.committedBy[a.Index] = s.maxTermAll
 	}
 	if last, ok := s.fsmLast[a.FSM]; ok && a.Index <= last {
 		s.v("C01", "C01/apply-order", fmt.Sprintf("state machine %d on %s was handed index %d after index %d", a.FSM, e.Node, a.Index, last), e.Seq)
